@@ -9,12 +9,21 @@ only — finds in the set of all declarations of the program, independent of ord
 Inputs: bounded-exhaustive placements of 2–3 same-named declarations in a namespace tree of depth
 <= 3 x reference site x spelling x declaration order x (own file | imported file), plus random
 larger programs.
+Histories: resolution is a function of the program text, not of the past of the configured context
+(the model's `front` is a pure function of the file system and the root file): sequences of 2-4
+parses on ONE `ConfiguredContext` over a pool of files (declaring files, files referencing names
+declared only in other files of the pool, files with imports, the same file twice, random
+programs); every parse of a history must have the outcome, the bindings per reference position
+and the declarations of the same file parsed on a fresh context, and every reference must be bound
+to a declaration object of its own parse.
 """
 from __future__ import annotations
 
 import itertools
 import json
+import os
 import random
+from pathlib import Path
 
 import front
 
@@ -126,7 +135,7 @@ def build(pl, rot, order, split, r):
 
 def run(ctx):
     ctx.coverage["rule"] = ("placements of 1–3 declarations named x among 6 namespace positions (depth <= 3) x 6 reference sites x all "
-                            "relative/partly qualified/absolute spellings x reference before/after x own/imported file/both files (imported file finished first); plus random programs; "
+                            "relative/partly qualified/absolute spellings x reference before/after x own/imported file/both files (imported file finished first); plus random programs; plus histories of 2-4 parses on one configured context over pools of such files (each parse compared with a fresh context); "
                             "distinct = distinct (placement, site, spelling, order, split); non-trivial = reference resolves to a user type or is rejected")
     allc = placement_cases()
     r = random.Random(f"{ctx.seed}/c04")
@@ -206,10 +215,173 @@ def run(ctx):
             ctx.report("resolution:" + "+".join(sorted(set(s.get("why", ["?"])))),
                        "a reference is not bound to the declaration lexical scoping denotes (or an unknown/duplicate name is not rejected)",
                        {"input": {"files": t["files"], "root": t["root"]}, "spec": s, "impl": {k: v for k, v in impl.items() if k not in ("ast", "result")}})
+    check_histories(ctx)
     ctx.stats["correspondence_breaks"] = len(breaks)
     if breaks and not ctx.violations:
         ctx.report("correspondence", "resolver model and implementation disagree; lexical scoping holds on every sampled input",
                    {"correspondence": "c04.bindings vs ConfiguredContext.parse", "first": breaks[0], "count": len(breaks)}, no_failing_input=True)
+
+
+# ---------------------------------------------------------------------------------------------
+# histories: several parses on one configured context
+# ---------------------------------------------------------------------------------------------
+
+def history_pool(pl, rot, order, r, seedkey):
+    """a pool of files over one placement: importing file + imported file (both with declarations and references),
+    a file with only the declarations, a file that only references (names declared in OTHER files of the pool, no
+    import), an importing file that only references, a random program"""
+    files = dict(build(pl, rot, order, 2, r))
+    sp = spellings(pl)
+    decls = [(ns, decl_text(KINDS[(i + rot) % 3], "x")) for i, ns in enumerate(pl)]
+    holders = []
+    for i, site in enumerate(POSITIONS):
+        s1, s2 = sp[(rot + 2 * i) % len(sp)], sp[(rot + i + 2) % len(sp)]
+        holders.append((site, f"k{i} = record {{ f: {s1}; g: set<{s2}>; }}"))
+    files["/w/decls.djinni"] = emit_tree(decls, r, order)
+    files["/w/refs.djinni"] = emit_tree(holders, r, order)
+    files["/w/irefs.djinni"] = '@import "decls.djinni"\n' + emit_tree(holders[::2], r, 1 - order)
+    rr = random.Random(f"{seedkey}/prog")
+    g = front.Gen(rr, p_bad=0.1, max_decls=5, dup_names=rr.random() < 0.3, comments=False)
+    R = front.Render(rr, 'min')
+    files["/w/rand.djinni"] = R.join(R.program(g.program()))
+    return files
+
+
+def histories_for(files, r, k):
+    names = sorted(files)
+    fixed = [["/w/decls.djinni", "/w/refs.djinni"], ["/w/decls.djinni", "/w/decls.djinni"], ["/w/m.djinni", "/w/refs.djinni", "/w/m.djinni"],
+             ["/w/lib.djinni", "/w/m.djinni"], ["/w/irefs.djinni", "/w/refs.djinni", "/w/decls.djinni", "/w/irefs.djinni"],
+             ["/w/rand.djinni", "/w/rand.djinni", "/w/refs.djinni"], ["/w/refs.djinni", "/w/lib.djinni", "/w/refs.djinni"]]
+    out = r.sample(fixed, min(k, len(fixed)))
+    while len(out) < k:
+        out.append([r.choice(names) for _ in range(r.randint(2, 4))])
+    return out
+
+
+def _obs(impl):
+    """what is compared between a parse on a used context and the same parse on a fresh one"""
+    o = {"outcome": json.loads(json.dumps(front.canon_outcome(impl))),
+         "bindings": sorted([b["file"], list(b["p"]), b["key"]] for b in impl.get("bindings", [])),
+         "decls": list(impl.get("decls", []))}
+    if impl["kind"] == "diags":
+        o["messages"] = sorted([d["file"], list(d["p"]), d["msg"]] for d in impl["diags"])
+    if impl["kind"] in ("raised", "file-not-found", "crash"):
+        o["message"] = impl.get("msg", "")
+    res = impl.get("result")
+    if res is not None:
+        # a reference to a name this parse declares is bound to the declaration object of THIS parse
+        own = {}
+        for d in res.defs or []:
+            own.setdefault(".".join([str(x) for x in d.namespace] + [str(d.name)]), []).append(d)
+        foreign = []
+        for t in res.refs or []:
+            td = t.type_def
+            if td is None or t.name == "<function>":
+                continue
+            key = ".".join([str(x) for x in td.namespace] + [str(td.name)])
+            if key in own and not any(td is d for d in own[key]):
+                foreign.append([key, front._pos(t.position)])
+        o["foreign_declarations"] = sorted(foreign)
+    return o
+
+
+def _history_worker(args):
+    import signal
+    base, idx, chunk, timeout = args
+    sb = front.Sandbox(Path(base) / f"h{idx}")
+    out = []
+
+    def on_alarm(*_):
+        raise front._Hang()
+
+    signal.signal(signal.SIGALRM, on_alarm)
+    for case in chunk:
+        root, _ = sb.materialise(case["files"])
+        old = os.getcwd()
+        os.chdir(root / "w")
+        res = {"fresh": {}, "runs": []}
+        signal.alarm(timeout)
+        try:
+            for f in sorted({f for h in case["histories"] for f in h}):
+                res["fresh"][f] = _obs(front.real_parse(front.make_context(), root / f.lstrip("/"), root))
+            for h in case["histories"]:
+                cc = front.make_context()
+                res["runs"].append([_obs(front.real_parse(cc, root / f.lstrip("/"), root)) for f in h])
+        except front._Hang:
+            res["hang"] = timeout
+        finally:
+            signal.alarm(0)
+            os.chdir(old)
+        out.append(res)
+    return out
+
+
+def run_histories(base, cases, timeout=60, workers=12):
+    """worker subprocesses (the context keeps state across parses: nothing of it may leak into the check's process)"""
+    import multiprocessing as mp
+    if not cases:
+        return []
+    front.builtin_registry()
+    front.target_keys()
+    workers = max(1, min(workers, len(cases) // 2 or 1))
+    chunks = [cases[i::workers] for i in range(workers)]
+    with mp.get_context("fork").Pool(workers) as pool:
+        res = pool.map(_history_worker, [(str(base), i, ch, timeout) for i, ch in enumerate(chunks)])
+    out = [None] * len(cases)
+    for w, rs in enumerate(res):
+        for j, x in enumerate(rs):
+            out[w + j * workers] = x
+    return out
+
+
+def history_verdict(case, res):
+    """-> [(history, step, fresh observation, observation on the used context, why)]"""
+    bad = []
+    if "hang" in res:
+        return [(case["histories"][len(res["runs"])] if len(res["runs"]) < len(case["histories"]) else [], -1, None, None, "hang")]
+    for f, o in res["fresh"].items():
+        if o.get("foreign_declarations"):
+            bad.append(([f], 0, o, o, "bound to a declaration object that is not of this parse"))
+    for h, run in zip(case["histories"], res["runs"]):
+        for k, (f, o) in enumerate(zip(h, run)):
+            if o != res["fresh"][f]:
+                fr = res["fresh"][f]
+                why = [x for x in ("outcome", "bindings", "decls", "messages", "message", "foreign_declarations") if o.get(x) != fr.get(x)]
+                bad.append((h[:k + 1], k, fr, o, "differs in " + "+".join(why)))
+                break
+    return bad
+
+
+def check_histories(ctx):
+    r = random.Random(f"{ctx.seed}/c04/hist")
+    allc = placement_cases()
+    picks = r.sample(allc, ctx.n(60, 1200))
+    cases = []
+    for j, (pl, rot) in enumerate(picks):
+        order = j % 2
+        key = f"{ctx.seed}/c04/hist/{pl}/{rot}/{order}"
+        files = history_pool(pl, rot, order, random.Random(key), key)
+        cases.append({"files": files, "histories": histories_for(files, random.Random(key + "/h"), 5 if ctx.quick else 8)})
+    results = run_histories(ctx.tmp, cases)
+    failing = []
+    for case, res in zip(cases, results):
+        for h, run in zip(case["histories"], res.get("runs", [])):
+            changed = any(o["outcome"][0] != "ok" for o in run)
+            ctx.count(key=("history", tuple(h), json.dumps(case["files"], sort_keys=True)), nontrivial=changed or len(set(h)) < len(h),
+                      sample={"history": h, "outcomes": [o["outcome"][0] for o in run]})
+            ctx.stat("history_parses", len(h))
+        for v in history_verdict(case, res):
+            ctx.stat("history_dependent")
+            failing.append((case, v))
+    # the shortest failing histories (smallest files first) are the replays
+    failing.sort(key=lambda cv: (len(cv[1][0]), sum(len(cv[0]["files"][f]) for f in set(cv[1][0]))))
+    for case, (h, k, fresh, used, why) in failing[:3]:
+        if True:
+            ctx.report("resolution:history-dependent" if why != "hang" else "resolution:history-hang",
+                       "a parse on a configured context that has parsed before differs from the same file parsed on a fresh context "
+                       "(resolution is a function of the program text, not of the context's past): " + why,
+                       {"input": {"files": {f: t for f, t in case["files"].items() if f in h or any(f.endswith("/" + i) for i in ("lib.djinni", "decls.djinni"))}, "history": h}, "step": k, "file": h[k] if h else None, "why": why,
+                        "fresh_context": fresh, "used_context": used})
 
 
 def impl_obs(impl):
@@ -223,6 +395,12 @@ def impl_obs(impl):
 
 def replay(ctx, body):
     inp = body["input"]
+    if "history" in inp:
+        case = {"files": inp["files"], "histories": [inp["history"]]}
+        res, = run_histories(ctx.tmp, [case])
+        bad = history_verdict(case, res)
+        print(json.dumps({"history": inp["history"], "fresh": res["fresh"], "runs": res.get("runs"), "verdict": [b[4] for b in bad]}, indent=1)[:4000])
+        return not bad
     (impl, req), = front.run_many(ctx.tmp, [{"files": inp["files"], "root": inp["root"]}])
     s = ctx.driver.one({**req, "op": "c04.spec", "impl": impl_obs(impl), "bindings": impl.get("bindings", [])})
     print(json.dumps({"impl": {k: v for k, v in impl.items() if k not in ("ast", "result")}, "spec": s}, indent=1)[:4000])
